@@ -5,6 +5,8 @@
 // and a scan that finds no terminator runs into the guard page.
 //   <op> <variant> <off> <a> <b> <hex window bytes> <schedule>     schedule: i:off:byte,... or -
 //   variants: val <elsz> | ptr <elsz> | range <elsz> <count> | stru | strs | cmda <num>
+//             structv : copy_and_verify BY VALUE on a registered 8-byte struct lying in the window, with a verifier whose
+//             parameter type is deduced (const auto&): it must be handed a copy in application memory
 //             ptrc <elsz> : copy_and_verify on a POINTER CELL in the window (a tainted_volatile<T*>) whose value designates
 //             an object elsewhere in the window: the pointer is fetched ONCE
 //             cvba <size> | cva : copy_and_verify_buffer_address / copy_and_verify_address on a POINTER CELL that lies in
@@ -32,6 +34,14 @@ void operator delete[](void* p, std::size_t) noexcept { std::free(p); }
 #include "common.hpp"
 #include <map>
 #include <memory>
+
+// a registered struct for the by-value struct verifier (same layout under the host and the verif32 ABI)
+struct SV { unsigned int len; unsigned int tag; };
+#define sandbox_fields_reflection_vf_class_SV(f, g, ...)                       \
+  f(unsigned int, len, FIELD_NORMAL, ##__VA_ARGS__) g()                        \
+  f(unsigned int, tag, FIELD_NORMAL, ##__VA_ARGS__) g()
+#define sandbox_fields_reflection_vf_allClasses(f, ...) f(SV, vf, ##__VA_ARGS__)
+rlbox_load_structs_from_library(vf);
 
 using namespace vh;
 using Sbx = rlbox::rlbox_verif32_sandbox;
@@ -170,6 +180,9 @@ static std::string run_case(const toks_t& t)
       char* c = rlbox::copy_memory_or_deny_access(*g_sb, p, a, false, copied);
       out = inspect(c, a) + " alloc=" + std::to_string(a) + (copied ? "" : " NOTCOPIED");
       std::free(c);
+    } else if (variant == "structv") {
+      auto p = g_sb->UNSAFE_accept_pointer(reinterpret_cast<SV*>(g_win + off));
+      (*p).copy_and_verify([&](const auto& v) { out = inspect(std::addressof(v), sizeof(SV)); return SV{}; });
     } else if (variant == "ptrc") {
       out = by_size(a, [&](auto tg) {
         using T = typename decltype(tg)::type;
